@@ -6,6 +6,7 @@ import (
 	stdcontext "context"
 	"errors"
 	"fmt"
+	"net/http"
 	"reflect"
 	"regexp"
 	"runtime/debug"
@@ -31,6 +32,9 @@ import (
 func vfRecoverRoot(fn func()) (panicked bool, text, site, filterKind string) {
 	defer func() {
 		if r := recover(); r != nil {
+			if r == http.ErrAbortHandler {
+				return // deliberate connection abort (net/http recovers it silently), not a crash
+			}
 			panicked = true
 			text = fmt.Sprint(r)
 			st := string(debug.Stack())
